@@ -70,6 +70,7 @@ def im_core(ctx):
     c06.r06_3(ctx)   # a Reset only as the answer to a lag (never made up by a mutator / commit)
     c06.r06_5(ctx)
     c06.r06_6(ctx)
+    c06.r06_7(ctx)   # Pending only as the channel's answer (a Pending of its own after re-arming loses the wake-up / the end)
 
 
 def util_stage_rules(ctx, which=("c09", "c10", "c11")):
